@@ -35,7 +35,9 @@ def gen_run(rng, tier):
     yield {"universe": G.U_WITNESS, "steps": [
         {**G.W(1, 2), "op": G.op_q("find_type", "C")}, {**G.W(2, 1), "op": G.op_q("find_type", "{urn:a}PA")},
         {**G.W(3, 0), "op": G.op_q("find_types", "{urn:b}PB")}]}
-    # eviction while iterating
+    # eviction: the unbuildable class is created last, so that find_type picks it on a fresh context
+    yield {"universe": G.U_BAD2, "steps": G.fixed_world(G.U_BAD2, [G.op_fields(["x"]), G.op_q("find_type", "{urn:a}T"), G.op_fields(["x"]), G.op_lnm(["x"], 1), G.op_lnm(["x"], 1)])}
+    # eviction by the by-fields lookup
     yield {"universe": G.U_BAD, "steps": G.fixed_world(G.U_BAD, [G.op_fields(["x"]), G.op_fields(["x"]), G.op_q("find_types", "{urn:a}T")])}
     # 2. bounded-exhaustive op sequences over the hand universes
     for name, U in G.HAND.items():
@@ -287,14 +289,22 @@ def known_finding_for(universe, steps, k, runner):
     for st in window:
         if seen.setdefault(st["mods"], st["loaded"]) != st["loaded"]:
             return "C14-F2"
-    # F3: an indexed class whose metadata cannot be built meets a by-fields lookup
-    for st in window:
-        o = st["op"]
-        bad = _indexed_bad(universe, st["loaded"])
-        if bad and o["k"] in ("find_type_by_fields", "json_parse_any"):
-            return "C14-F3"
-        if o["k"] == "local_names_match" and not _buildable(universe, o["c"]):
-            return "C14-F3"
+    # F3 (what remains after 7df03d4): an unbuildable class has been evicted from the
+    # published index by an earlier by-fields lookup / local_names_match, and the
+    # failing call reads the index by qualified name; or the failing call is itself a
+    # direct local_names_match on an unbuildable class (ValueError from list.remove)
+    last = window[-1]["op"]
+    if last["k"] == "local_names_match" and not _buildable(universe, last["c"]):
+        return "C14-F3"
+    reads_by_name = last["k"] in ("find_types", "find_type", "find_subclass", "xml_parse", "json_parse") or (
+        last["k"] == "fetch" and bool(last.get("xsi")))
+    if reads_by_name:
+        for st in window[:-1]:
+            o = st["op"]
+            if _indexed_bad(universe, st["loaded"]) and o["k"] in ("find_type_by_fields", "json_parse_any"):
+                return "C14-F3"
+            if o["k"] == "local_names_match" and not _buildable(universe, o["c"]):
+                return "C14-F3"
     # F1: a class without Meta.namespace requested under two parent namespaces
     log = runner(window)
     first = {}
@@ -566,10 +576,18 @@ def finding_f2():
 
 
 def finding_f3():
-    steps = G.fixed_world(G.U_BAD, [G.op_fields(["x"]), G.op_fields(["x"]), G.op_q("find_types", "{urn:a}T")])
+    """What remains after 7df03d4: the by-fields lookup is repaired (asserted
+    here too), but the evicted class is gone from find_types, a repeated direct
+    local_names_match raises ValueError, and find_type switches to a namesake."""
+    steps = G.fixed_world(G.U_BAD, [G.op_fields(["x"]), G.op_fields(["x"]), G.op_q("find_types", "{urn:a}T"),
+                                    G.op_lnm(["x"], 0)])
     res = L.run_steps(G.U_BAD, steps)
-    still = res[1]["shared"] != res[1]["fresh"] and res[2]["shared"] != res[2]["fresh"]
-    return still, json.dumps([[r["shared"], r["fresh"]] for r in res])[:300]
+    repaired = res[0]["shared"] == res[0]["fresh"] == res[1]["shared"] == res[1]["fresh"]
+    residual = res[2]["shared"] != res[2]["fresh"] and res[3]["shared"] == {"err": "ValueError"} and res[3]["fresh"] == {"bool": False}
+    steps2 = G.fixed_world(G.U_BAD2, [G.op_fields(["x"]), G.op_q("find_type", "{urn:a}T"), G.op_fetch(0, None, "{urn:a}T")])
+    res2 = L.run_steps(G.U_BAD2, steps2)
+    switch = res2[1]["shared"] == {"type": 0} and res2[1]["fresh"] == {"type": 1}
+    return (repaired and residual and switch), json.dumps([[r["shared"], r["fresh"]] for r in res + res2])[:400]
 
 
 def finding_f4():
